@@ -47,6 +47,15 @@ func c06Gen(seed uint64, run int, tier string) *Case {
 		c.Stratum = "ufs/directed-" + []string{"", "many-users", "directory-changes-under-a-fid"}[c.Cfg["directed"]]
 		return c
 	}
+	if run%40 == 23 {
+		// a directed session on Ufs: every request goes out with a Tflush of it in the same write, so that the flush
+		// meets its target at every stage (not started, inside an os call, answering)
+		c.Cfg["ufs"], c.Cfg["gen"], c.Cfg["directed"], c.Cfg["osrate"] = 1, 3, 4, 0
+		c.Cfg["msize"], c.Cfg["smsize"], c.Cfg["dotu"], c.Cfg["sdotu"], c.Cfg["wait"] = 8192, 8192, 1, 1, 1
+		c.Cfg["maxsteps"] = 4000000
+		c.Stratum = "ufs/directed-flush-with-every-request"
+		return c
+	}
 	if run%40 == 3 {
 		// a directed session on the scripted implementation: three requests under one tag, the oldest parked in the
 		// implementation, a Tflush of the tag, and the peer hangs up before the parked one comes back
@@ -366,6 +375,38 @@ func c06Exec(x *Ctx) {
 				ask(&Msg{Type: Tread, Tag: 11, Fid: 10, Offset: xoff, Count: 4000})
 				ask(&Msg{Type: Tread, Tag: 12, Fid: 10, Offset: 0, Count: 4000})
 				x.Probe("directory-changed-under-a-listing-fid")
+			case 4:
+				for k := 0; k < 40 && !p.EOF; k++ {
+					tg := uint16(200 + 2*k)
+					var m *Msg
+					switch k % 8 {
+					case 0:
+						m = &Msg{Type: Tread, Tag: tg, Fid: 1, Offset: 0, Count: 4000} // the open directory
+					case 1:
+						m = &Msg{Type: Tread, Tag: tg, Fid: 2, Offset: 0, Count: 1000}
+					case 2:
+						m = &Msg{Type: Twalk, Tag: tg, Fid: 0, Newfid: uint32(300 + k), Wname: []string{"sub", "deep"}}
+					case 3:
+						m = &Msg{Type: Tstat, Tag: tg, Fid: 0}
+					case 4:
+						m = &Msg{Type: Topen, Tag: tg, Fid: uint32(300 + k - 2), Mode: 0}
+					case 5:
+						m = &Msg{Type: Tcreate, Tag: tg, Fid: uint32(300 + k - 3), Name: fmt.Sprintf("made%d", k), Perm: 0o644, Mode: 1}
+					case 6:
+						m = &Msg{Type: Twstat, Tag: tg, Fid: 2, Stat: nullStat(func(s *Stat) { s.Mtime = uint32(1500000000 + k) })}
+					default:
+						m = &Msg{Type: Tclunk, Tag: tg, Fid: uint32(300 + k - 5)}
+					}
+					before := len(p.Recv)
+					p.WriteRaw(append(Encode(m, p.Dotu), Encode(&Msg{Type: Tflush, Tag: tg + 1, Oldtag: tg}, p.Dotu)...))
+					for y := 0; y < 400 && len(p.Recv) < before+1 && !p.EOF; y++ {
+						rt.Yield(rt.SiteActor)
+					}
+					for y := r.Intn(20); y > 0; y-- {
+						rt.Yield(rt.SiteActor)
+					}
+				}
+				x.Probe("tflush-sent-with-every-request")
 			case 3:
 				p.WriteRaw(Encode(&Msg{Type: Tstat, Tag: 77, Fid: 0}, p.Dotu))
 				for y := 0; y < 200 && len(fs.HeldInvs()) == 0 && !p.EOF; y++ {
